@@ -585,4 +585,201 @@ theorem phH_pending {n0 : Nat} {f0 : Iso.Node} {x0 : Inst} {e0 : Nat} {nx : Iso.
   | 1, hk => exact p0 hk.1
   | 0, hk => rcases hk with hk | hk; exact p1 hk.1; exact p0 hk.1
 
+/-! ## two one-device library instances -/
+
+/-- node `i` is a one-device library instance (NAME `nm` at `A`) with the pending claims `inb` -/
+def Side (b : Bus) (i nm A : Nat) (inb : List Iso.Claim) : Prop :=
+  (∃ x, (b.node i).kind = .lib x ∧ LibAt x nm A) ∧ (b.node i).inbox = inb.map frameOfClaim ∧ ∀ c ∈ inb, okClaim c
+
+def ChgAt (b : Bus) (i : Nat) : Prop := ∃ x, (b.node i).kind = .lib x ∧ x.addressChanged = true
+
+theorem side_idle {b : Bus} {i nm A : Nat} (h : Side b i nm A []) : step b (.deliver i) = b := by
+  simp only [step]; split
+  · rw [h.2.1]; rfl
+  · rfl
+
+theorem kind_other_step (b : Bus) (i j : Nat) (hij : j ≠ i) : ((step b (.deliver i)).node j).kind = (b.node j).kind := by
+  simp only [step]; split
+  · split
+    · rfl
+    · rw [act_kind_other b i j hij]
+  · rfl
+
+theorem chgAt_other {b : Bus} {i j : Nat} (hij : j ≠ i) (h : ChgAt b j) : ChgAt (step b (.deliver i)) j := by
+  obtain ⟨x, hk, hx⟩ := h
+  exact ⟨x, by rw [kind_other_step b i j hij]; exact hk, hx⟩
+
+theorem chgAt_self {b : Bus} {i nm A : Nat} {inb : List Iso.Claim} (hs : Side b i nm A inb) (h : ChgAt b i) :
+    ChgAt (step b (.deliver i)) i := by
+  obtain ⟨x, hk, hx⟩ := h
+  obtain ⟨⟨x', hk', hl⟩, _⟩ := hs
+  rw [hk] at hk'; cases hk'
+  simp only [step]
+  split
+  · split
+    · exact ⟨x, hk, hx⟩
+    · rename_i fr rest _
+      refine ⟨(libParse x [.frame fr]).1, by rw [act_node_self, hk]; rfl, ?_⟩
+      exact (rep_parse (clearSent x) (libOK_clearSent hl.1) (some (.frame fr))).2.1 hx
+  · exact ⟨x, hk, hx⟩
+
+/-- node `i` processes the claim `c`; node `j` is the other library instance -/
+theorem side_deliver {b : Bus} {i j nm A nm' A' : Nat} {c : Iso.Claim} {r inj : List Iso.Claim} {x : Inst} {d : Dev}
+    (hi : i < b.n) (hij : j ≠ i) (hS : Side b i nm A (c :: r)) (hO : Side b j nm' A' inj)
+    (hkx : (b.node i).kind = .lib x) (hd : x.s.devs = [d]) :
+    (c.2 ≠ A → Side (step b (.deliver i)) i nm A r ∧ Side (step b (.deliver i)) j nm' A' inj) ∧
+    (A ≤ 251 → c.2 = A → nm < c.1 →
+      Side (step b (.deliver i)) i nm A r ∧ Side (step b (.deliver i)) j nm' A' (inj ++ [(nm, A)])) ∧
+    (A ≤ 251 → c.2 = A → c.1 < nm →
+      Side (step b (.deliver i)) i nm (nxt A d.endSource) r ∧
+      Side (step b (.deliver i)) j nm' A' (inj ++ [(nm, nxt A d.endSource)]) ∧ ChgAt (step b (.deliver i)) i) := by
+  obtain ⟨⟨x', hk, hx⟩, h0, hb0⟩ := hS
+  rw [hkx] at hk; cases hk
+  obtain ⟨⟨y, hky, hy⟩, h1, hb1⟩ := hO
+  have hcok := hb0 c (List.mem_cons_self)
+  have hr0 : ∀ c' ∈ r, okClaim c' := fun c' hc' => hb0 c' (List.mem_cons_of_mem _ hc')
+  have hstep : step b (.deliver i) = act b i (kindRx b.next (b.node i).kind (frameOfClaim c)) (r.map frameOfClaim) := by
+    simp only [step, hi, ↓reduceIte, h0, List.map_cons]
+  have hkr : kindRx b.next (b.node i).kind (frameOfClaim c) =
+      (.lib (libParse x [.frame (frameOfClaim c)]).1, (libParse x [.frame (frameOfClaim c)]).2) := by rw [hkx]; rfl
+  have hon : onBus (b.node j).kind = true := by rw [hky]; simp [onBus, hy.2.1]
+  have key : ∀ (A2 : Nat) (out : List Iso.Claim), LibAt (libParse x [.frame (frameOfClaim c)]).1 nm A2 →
+      (libParse x [.frame (frameOfClaim c)]).2 = out.map frameOfClaim → (∀ c' ∈ out, okClaim c') →
+      Side (step b (.deliver i)) i nm A2 r ∧ Side (step b (.deliver i)) j nm' A' (inj ++ out) := by
+    intro A2 out hl ho hoo
+    rw [hstep, hkr]
+    refine ⟨⟨⟨_, by rw [act_node_self], hl⟩, by rw [act_node_self], hr0⟩, ⟨y, ?_, hy⟩, ?_, ?_⟩
+    · rw [act_kind_other b i j hij]; exact hky
+    · rw [act_node_other b i j hij, if_pos hon]; simp [h1, ho]
+    · intro c' hc'; rcases List.mem_append.mp hc' with h | h
+      · exact hb1 c' h
+      · exact hoo c' h
+  have re := lib_react x nm A hx c hcok.1 hcok.2
+  simp only at re
+  refine ⟨fun hne => ?_, fun ha he hl => ?_, fun ha he hl => ?_⟩
+  · have := re.1 hne
+    simpa using key A [] this.1 (by rw [this.2]; rfl) (by simp)
+  · have := re.2.1 ha he hl
+    exact key A [(nm, A)] this.1 (by rw [this.2]; rfl)
+      (by intro c' hc'; simp at hc'; subst hc'; exact ⟨hx.name_lt, by show A < 256; omega⟩)
+  · have mv := lib_move_exact x nm A d hx hd ha c hcok.1 hcok.2 he hl
+    simp only at mv
+    have k2 := key (nxt A d.endSource) [(nm, nxt A d.endSource)] mv.1 (by rw [mv.2.1]; rfl)
+      (by intro c' hc'; simp at hc'; subst hc'; exact ⟨hx.name_lt, nxt_lt _ _⟩)
+    refine ⟨k2.1, k2.2, ?_⟩
+    rw [hstep, hkr]
+    exact ⟨_, by rw [act_node_self], mv.2.2⟩
+
+theorem side_xd {b : Bus} {i nm A : Nat} {inb : List Iso.Claim} (h : Side b i nm A inb) :
+    ∃ x d, (b.node i).kind = .lib x ∧ x.s.devs = [d] := by
+  obtain ⟨⟨x, hk, hx⟩, _⟩ := h
+  obtain ⟨d, hd, _⟩ := hx.dev
+  exact ⟨x, d, hk, hd⟩
+
+/-- remaining deliveries `k` ↦ shape of the bus: node 0 (NAME `n0`, lower) and node 1 (= `y0`, NAME `n1`, end-of-search `e1`)
+both at `a` with crossed claims -/
+def PhLL (n0 n1 a : Nat) (y0 : Inst) (e1 : Nat) (k : Nat) (b : Bus) : Prop :=
+  let r := nxt a e1
+  b.n = 2 ∧
+  match k with
+  | 4 => Side b 0 n0 a [(n1, a)] ∧ Side b 1 n1 a [(n0, a)] ∧ (b.node 1).kind = .lib y0
+  | 3 => (Side b 0 n0 a [] ∧ Side b 1 n1 a [(n0, a), (n0, a)] ∧ (b.node 1).kind = .lib y0) ∨
+         (Side b 0 n0 a [(n1, a), (n1, r)] ∧ Side b 1 n1 r [] ∧ ChgAt b 1)
+  | 2 => Side b 0 n0 a [(n1, r)] ∧ Side b 1 n1 r [(n0, a)] ∧ ChgAt b 1
+  | 1 => (Side b 0 n0 a [] ∧ Side b 1 n1 r [(n0, a)] ∧ ChgAt b 1) ∨ (Side b 0 n0 a [(n1, r)] ∧ Side b 1 n1 r [] ∧ ChgAt b 1)
+  | 0 => Side b 0 n0 a [] ∧ Side b 1 n1 r [] ∧ ChgAt b 1
+  | _ => False
+
+theorem step_deliver_n (b : Bus) (i : Nat) : (step b (.deliver i)).n = b.n := by
+  simp only [step]; split
+  · split <;> rfl
+  · rfl
+
+theorem phLL_step (n0 n1 a : Nat) (y0 : Inst) (d1 : Dev) (hlt : n0 < n1) (ha : a ≤ 251) (hd1 : y0.s.devs = [d1])
+    (k : Nat) (b : Bus) (h : PhLL n0 n1 a y0 d1.endSource k b) (i : Nat) : Progress (PhLL n0 n1 a y0 d1.endSource) k b i := by
+  obtain ⟨hn, hk⟩ := h
+  have hne : nxt a d1.endSource ≠ a := nxt_ne _ _ ha
+  have hn' : (step b (.deliver i)).n = 2 := by rw [step_deliver_n]; exact hn
+  have idle : ∀ {j nm A}, Side b j nm A [] → j = i → Progress (PhLL n0 n1 a y0 d1.endSource) k b i :=
+    fun h hj => Or.inl ⟨by rw [← hj]; exact side_idle h, fun _ => by rw [← hj, h.2.1]; rfl⟩
+  have far : 2 ≤ i → Progress (PhLL n0 n1 a y0 d1.endSource) k b i :=
+    fun hi => Or.inl ⟨step_far b i (by rw [hn]; omega), fun hh => by rw [hn] at hh; omega⟩
+  have ne0 : ∀ {nm A c r}, Side b 0 nm A (c :: r) → (0 : Nat) < b.n ∧ (b.node 0).inbox ≠ [] :=
+    fun h => ⟨by rw [hn]; omega, by rw [h.2.1]; simp⟩
+  have ne1 : ∀ {nm A c r}, Side b 1 nm A (c :: r) → (1 : Nat) < b.n ∧ (b.node 1).inbox ≠ [] :=
+    fun h => ⟨by rw [hn]; omega, by rw [h.2.1]; simp⟩
+  by_cases hi2 : 2 ≤ i
+  · exact far hi2
+  have hi : i < 2 := by omega
+  match k, hk with
+  | 4, ⟨s0, s1, hky⟩ =>
+    rcases (by omega : i = 0 ∨ i = 1) with rfl | rfl
+    · obtain ⟨x, d, hkx, hd⟩ := side_xd s0
+      have t := (side_deliver (ne0 s0).1 (by omega) s0 s1 hkx hd).2.1 ha rfl hlt
+      exact Or.inr ⟨3, rfl, ⟨hn', Or.inl ⟨t.1, by simpa using t.2, by rw [kind_other_step b 0 1 (by omega)]; exact hky⟩⟩, ne0 s0⟩
+    · have t := (side_deliver (ne1 s1).1 (by omega) s1 s0 hky hd1).2.2 ha rfl hlt
+      exact Or.inr ⟨3, rfl, ⟨hn', Or.inr ⟨by simpa using t.2.1, t.1, t.2.2⟩⟩, ne1 s1⟩
+  | 3, hk =>
+    rcases hk with ⟨s0, s1, hky⟩ | ⟨s0, s1, hc⟩
+    · rcases (by omega : i = 0 ∨ i = 1) with rfl | rfl
+      · exact idle s0 rfl
+      · have t := (side_deliver (ne1 s1).1 (by omega) s1 s0 hky hd1).2.2 ha rfl hlt
+        exact Or.inr ⟨2, rfl, ⟨hn', by simpa using t.2.1, t.1, t.2.2⟩, ne1 s1⟩
+    · rcases (by omega : i = 0 ∨ i = 1) with rfl | rfl
+      · obtain ⟨x, d, hkx, hd⟩ := side_xd s0
+        have t := (side_deliver (ne0 s0).1 (by omega) s0 s1 hkx hd).2.1 ha rfl hlt
+        exact Or.inr ⟨2, rfl, ⟨hn', t.1, by simpa using t.2, chgAt_other (by omega) hc⟩, ne0 s0⟩
+      · exact idle s1 rfl
+  | 2, ⟨s0, s1, hc⟩ =>
+    rcases (by omega : i = 0 ∨ i = 1) with rfl | rfl
+    · obtain ⟨x, d, hkx, hd⟩ := side_xd s0
+      have t := (side_deliver (ne0 s0).1 (by omega) s0 s1 hkx hd).1 hne
+      exact Or.inr ⟨1, rfl, ⟨hn', Or.inl ⟨t.1, t.2, chgAt_other (by omega) hc⟩⟩, ne0 s0⟩
+    · obtain ⟨y, d, hky, hd⟩ := side_xd s1
+      have t := (side_deliver (ne1 s1).1 (by omega) s1 s0 hky hd).1 (fun hh => hne hh.symm)
+      exact Or.inr ⟨1, rfl, ⟨hn', Or.inr ⟨t.2, t.1, chgAt_self s1 hc⟩⟩, ne1 s1⟩
+  | 1, hk =>
+    rcases hk with ⟨s0, s1, hc⟩ | ⟨s0, s1, hc⟩
+    · rcases (by omega : i = 0 ∨ i = 1) with rfl | rfl
+      · exact idle s0 rfl
+      · obtain ⟨y, d, hky, hd⟩ := side_xd s1
+        have t := (side_deliver (ne1 s1).1 (by omega) s1 s0 hky hd).1 (fun hh => hne hh.symm)
+        exact Or.inr ⟨0, rfl, ⟨hn', t.2, t.1, chgAt_self s1 hc⟩, ne1 s1⟩
+    · rcases (by omega : i = 0 ∨ i = 1) with rfl | rfl
+      · obtain ⟨x, d, hkx, hd⟩ := side_xd s0
+        have t := (side_deliver (ne0 s0).1 (by omega) s0 s1 hkx hd).1 hne
+        exact Or.inr ⟨0, rfl, ⟨hn', t.1, t.2, chgAt_other (by omega) hc⟩, ne0 s0⟩
+      · exact idle s1 rfl
+  | 0, ⟨s0, s1, _⟩ =>
+    rcases (by omega : i = 0 ∨ i = 1) with rfl | rfl
+    · exact idle s0 rfl
+    · exact idle s1 rfl
+
+theorem side_claimants {b : Bus} {i nm A : Nat} {inb : List Iso.Claim} (h : Side b i nm A inb) :
+    claimants (b.node i).kind = [(nm, A)] := by
+  obtain ⟨⟨x, hk, hx⟩, _⟩ := h
+  rw [hk]; simp only [claimants, hx.2.1, ↓reduceIte]; exact hx.2.2
+
+theorem phLL_zero {n0 n1 a : Nat} {y0 : Inst} {e1 : Nat} {b : Bus} (h : PhLL n0 n1 a y0 e1 0 b) :
+    quiescent b ∧ claimants (b.node 0).kind = [(n0, a)] ∧ claimants (b.node 1).kind = [(n1, nxt a e1)] ∧ ChgAt b 1 := by
+  obtain ⟨hn, s0, s1, hc⟩ := h
+  refine ⟨fun i hi => ?_, side_claimants s0, side_claimants s1, hc⟩
+  rw [hn] at hi
+  rcases (by omega : i = 0 ∨ i = 1) with rfl | rfl
+  · rw [s0.2.1]; rfl
+  · rw [s1.2.1]; rfl
+
+theorem phLL_pending {n0 n1 a : Nat} {y0 : Inst} {e1 : Nat} {b : Bus} {k : Nat} (h : PhLL n0 n1 a y0 e1 (k + 1) b) :
+    ∃ i, i < b.n ∧ (b.node i).inbox ≠ [] := by
+  obtain ⟨hn, hk⟩ := h
+  have p0 : ∀ {nm A c r}, Side b 0 nm A (c :: r) → ∃ i, i < b.n ∧ (b.node i).inbox ≠ [] :=
+    fun h => ⟨0, by rw [hn]; omega, by rw [h.2.1]; simp⟩
+  have p1 : ∀ {nm A c r}, Side b 1 nm A (c :: r) → ∃ i, i < b.n ∧ (b.node i).inbox ≠ [] :=
+    fun h => ⟨1, by rw [hn]; omega, by rw [h.2.1]; simp⟩
+  match k, hk with
+  | 3, hk => exact p0 hk.1
+  | 2, hk => rcases hk with hk | hk; exact p1 hk.2.1; exact p0 hk.1
+  | 1, hk => exact p0 hk.1
+  | 0, hk => rcases hk with hk | hk; exact p1 hk.2.1; exact p0 hk.1
+
 end N2k.Bus
